@@ -2856,4 +2856,199 @@ func number(value []byte) (int, error) {
 	return strconv.Atoi(string(bytes.TrimSpace(value)))
 }
 `},
+	// fmt.Sprintf <-> presized byte buffer filled with append and strconv.AppendUint (manual zero padding)
+	{Name: "b-path-append-bytes", File: "replication/interval.go",
+		Find: `func (ds *Datasource) baseSeqURL(sn SeqNum) string {
+	n := sn.Uint64()
+	return fmt.Sprintf("%s/replication/%s/%03d/%03d/%03d",
+		ds.baseURL(),
+		sn.Dir(),
+		n/1000000,
+		(n%1000000)/1000,
+		n%1000)
+}
+`,
+		Replace: `func (ds *Datasource) baseSeqURL(sn SeqNum) string {
+	base, dir, n := ds.baseURL(), sn.Dir(), sn.Uint64()
+
+	buf := make([]byte, 0, len(base)+len("/replication/")+len(dir)+len("/000/000/000"))
+	buf = append(buf, base...)
+	buf = append(buf, "/replication/"...)
+	buf = append(buf, dir...)
+	buf = appendPadded3(buf, n/1000000)
+	buf = appendPadded3(buf, (n%1000000)/1000)
+	buf = appendPadded3(buf, n%1000)
+
+	return string(buf)
+}
+
+// appendPadded3 appends a slash and the number zero padded to three digits, more if it needs them.
+func appendPadded3(buf []byte, v uint64) []byte {
+	buf = append(buf, '/')
+	if v < 100 {
+		buf = append(buf, '0')
+	}
+	if v < 10 {
+		buf = append(buf, '0')
+	}
+
+	return strconv.AppendUint(buf, v, 10)
+}
+`},
+	// guarded fast path (the common layout tried first when the byte after the date says so) falling back to the general loop
+	{Name: "b-decodetime-fast-path", File: "replication/datasource.go",
+		Find: `func decodeTime(s string) (time.Time, error) {
+	var (
+		t   time.Time
+		err error
+	)
+	for _, format := range timeFormats {
+		t, err = time.Parse(format, s)
+		if err == nil {
+			return t, nil
+		}
+	}
+
+	return t, err
+}
+`,
+		Replace: `func decodeTime(s string) (time.Time, error) {
+	// the interval state files are the most common; theirs is the only layout with a 'T' after the date
+	if len(s) > 10 && s[10] == 'T' {
+		if t, err := time.Parse(timeFormats[2], s); err == nil {
+			return t, nil
+		}
+	}
+
+	var (
+		t   time.Time
+		err error
+	)
+	for _, format := range timeFormats {
+		t, err = time.Parse(format, s)
+		if err == nil {
+			return t, nil
+		}
+	}
+
+	return t, err
+}
+`},
+	// values cached in locals (the bounds' sequence numbers read once per iteration)
+	{Name: "b-search-seqnums-read-once", File: "replication/search.go",
+		Find: `func findInRange(ctx context.Context, s *stater, lower, upper *State, timestamp time.Time) (*State, error) {
+	// we do a binary search through the range to find the sequence number
+	for lower.SeqNum+1 < upper.SeqNum {
+		// could do better here
+		splitID := (lower.SeqNum + upper.SeqNum) / 2
+
+		split, err := s.State(ctx, splitID)
+		if err != nil && !NotFound(err) {
+			return nil, err
+		}
+
+		if split == nil {
+			// file missing, search the next towards lower
+			sID := splitID - 1
+
+			for split == nil && lower.SeqNum < sID {
+				split, err = s.State(ctx, sID)
+				if err != nil && !NotFound(err) {
+					return nil, err
+				}
+
+				sID--
+			}
+		}
+
+		if split == nil {
+			// still missing? search the next towards upper
+			sID := splitID + 1
+
+			for split == nil && sID < upper.SeqNum {
+				split, err = s.State(ctx, sID)
+				if err != nil && !NotFound(err) {
+					return nil, err
+				}
+
+				sID++
+			}
+		}
+
+		if split == nil {
+			// nothing between lower and upper, so upper is
+			// the first state at or after the timestamp.
+			return upper, nil
+		}
+
+		// set the new boundary
+		if timestamp.After(split.Timestamp) {
+			lower = split
+		} else {
+			upper = split
+		}
+	}
+
+	// timestamp is now between lower and upper, we want to return the upper.
+	return upper, nil
+}
+`,
+		Replace: `func findInRange(ctx context.Context, s *stater, lower, upper *State, timestamp time.Time) (*State, error) {
+	// we do a binary search through the range to find the sequence number
+	for lower.SeqNum+1 < upper.SeqNum {
+		// could do better here
+		lo, hi := lower.SeqNum, upper.SeqNum
+		splitID := (lo + hi) / 2
+
+		split, err := s.State(ctx, splitID)
+		if err != nil && !NotFound(err) {
+			return nil, err
+		}
+
+		if split == nil {
+			// file missing, search the next towards lower
+			sID := splitID - 1
+
+			for split == nil && lo < sID {
+				split, err = s.State(ctx, sID)
+				if err != nil && !NotFound(err) {
+					return nil, err
+				}
+
+				sID--
+			}
+		}
+
+		if split == nil {
+			// still missing? search the next towards upper
+			sID := splitID + 1
+
+			for split == nil && sID < hi {
+				split, err = s.State(ctx, sID)
+				if err != nil && !NotFound(err) {
+					return nil, err
+				}
+
+				sID++
+			}
+		}
+
+		if split == nil {
+			// nothing between lower and upper, so upper is
+			// the first state at or after the timestamp.
+			return upper, nil
+		}
+
+		// set the new boundary
+		if timestamp.After(split.Timestamp) {
+			lower = split
+		} else {
+			upper = split
+		}
+	}
+
+	// timestamp is now between lower and upper, we want to return the upper.
+	return upper, nil
+}
+`},
 }
